@@ -3,7 +3,9 @@ paths, predecessor tree), Model/AlgoGen2.lean (set 2: tarjan.rs, johnson_75.rs, 
 Model/AlgoGen3.lean (set 3: the PRNGs, the sequential seeded generators, the sequential operations) and
 Model/AlgoGen4.lean (set 4: the eight parallel functions under the reading of DESIGN.md 4.2) and
 Model/AlgoGen5.lean (set 5: the remaining functions with unchecked accesses: bit operations, hand-rolled iterators,
-pointer walks, DistanceMatrix::new) from the repo - the imperative-Rust -> Lean translator tie (tools/translate_algo.py, docs/AlgoGen.md).
+pointer walks, DistanceMatrix::new) and Model/AlgoGen6.lean (set 6: the function bodies no earlier set regenerated -
+AdjacencyList::indegree_sequence, the add_arc of the map / edge list / weighted list, FloydWarshall::new, the wrappers of
+PredecessorTree, the default method of ContiguousOrder - and the field lists of the five representation structs) from the repo - the imperative-Rust -> Lean translator tie (tools/translate_algo.py, docs/AlgoGen.md).
 
 Chain it in a property plugin like `_opsgen` / `_reprgen`:
 
@@ -13,8 +15,9 @@ Chain it in a property plugin like `_opsgen` / `_reprgen`:
 
 and add "GraafVerif.Thm.AlgoGen" (C03..C08, C19) resp. "GraafVerif.Thm.AlgoGen2" (C09, C10, C16) resp.
 "GraafVerif.Thm.AlgoGen3" (C11, C15) resp. "GraafVerif.Thm.AlgoGen4" (C17; threaded parts of C02, C11, C12, C14, C15) resp.
-"GraafVerif.Thm.AlgoGen5" (C01, C02, C12, C13, C18) to the property's `thm_module` list and the theorems of props/AlgoGen.json resp. props/AlgoGen2.json resp.
-props/AlgoGen3.json resp. props/AlgoGen4.json resp. props/AlgoGen5.json to its `theorems`, so that the regenerated definitions are re-checked (a changed comparison / dropped statement in a
+"GraafVerif.Thm.AlgoGen5" (C01, C02, C12, C13, C18) resp. "GraafVerif.Thm.AlgoGen6" (C01, C02, C05, C08, C13, C16, C19, C20) to the
+property's `thm_module` list and the theorems of props/AlgoGen.json resp. props/AlgoGen2.json resp.
+props/AlgoGen3.json resp. props/AlgoGen4.json resp. props/AlgoGen5.json resp. props/AlgoGen6.json to its `theorems`, so that the regenerated definitions are re-checked (a changed comparison / dropped statement in a
 covered function then breaks a PROOF)."""
 import json
 import os
@@ -23,11 +26,11 @@ import subprocess
 
 
 FILES = [(1, "AlgoGen.lean", "AlgoGen.json"), (2, "AlgoGen2.lean", "AlgoGen2.json"), (3, "AlgoGen3.lean", "AlgoGen3.json"),
-         (4, "AlgoGen4.lean", "AlgoGen4.json"), (5, "AlgoGen5.lean", "AlgoGen5.json")]
+         (4, "AlgoGen4.lean", "AlgoGen4.json"), (5, "AlgoGen5.lean", "AlgoGen5.json"), (6, "AlgoGen6.lean", "AlgoGen6.json")]
 
 
 def pre_build(ctx):
-    """regenerate Model/AlgoGen.lean (set 1) .. Model/AlgoGen5.lean (set 5) from ctx["repo"]"""
+    """regenerate Model/AlgoGen.lean (set 1) .. Model/AlgoGen6.lean (set 6) from ctx["repo"]"""
     tool = os.path.join(ctx["root"], "tools", "translate_algo.py")
     notes = []
     for which, lean, _ in FILES:
@@ -53,8 +56,8 @@ def generated_defs(path):
 
 
 def pre_checks(ctx):
-    """Every generated definition `X.f` (of the five files) must have its equality theorem
-    `GraafVerif.AlgoGenThm.X.f_eq` listed in props/AlgoGen.json resp. AlgoGen2.json .. AlgoGen5.json (a function
+    """Every generated definition `X.f` (of the six files) must have its equality theorem
+    `GraafVerif.AlgoGenThm.X.f_eq` listed in props/AlgoGen.json resp. AlgoGen2.json .. AlgoGen6.json (a function
     added to the translator's TARGETS without a theorem would be an untied definition)."""
     out = []
     for which, lean, props_name in FILES:
